@@ -80,7 +80,7 @@ func init() {
 		Title: "Privileged changes need governance; messages touch only the signer's assets",
 		Funcs: fcNP("x/oracle/keeper.msgServer.UpdateParams", "x/oracle/keeper.msgServer.UpdateCyclelist", "x/registry/keeper.msgServer.UpdateDataSpec",
 			"x/registry/keeper.msgServer.RegisterSpec", "x/reporter/keeper.msgServer.UpdateParams", "x/bridge/keeper.msgServer.UpdateSnapshotLimit",
-			"x/dispute/keeper.msgServer.UpdateTeam", "x/mint/keeper.msgServer.Init", "x/oracle/keeper.msgServer.Tip", "x/bridge/keeper.msgServer.WithdrawTokens"),
+			"x/dispute/keeper.msgServer.UpdateTeam", "x/mint/keeper.msgServer.Init", "x/oracle/keeper.msgServer.Tip", "x/bridge/keeper.msgServer.WithdrawTokens", "x/reporter/keeper.Keeper.HasMin"),
 		Assumptions: []string{
 			"k.authority is the governance module address (set in app.go when the keepers are constructed)",
 			"bech32 decoding is modelled abstractly: AccAddressFromBech32(s) yields the account addr_str(s)",
@@ -127,6 +127,19 @@ func init() {
 			"that the aggregate value of a withdrawal encodes recipient, sender and amount (GetWithdrawalReportValue): abi.Pack is unmodelled; only the data flow (aggregate from CreateWithdrawalAggregate with this id and amount is the one stored) is proved",
 			"that no reporter can create an aggregate for a withdrawal query (PreventBridgeWithdrawalReport and writers of Aggregates): not yet under contract",
 			"batched claims (msgServer.ClaimDeposits loop)",
+		},
+	})
+	reg(&PropDef{
+		ID:    "C10",
+		Title: "Reporting power equals the bonded stake of active selectors, counted once",
+		Funcs: fcNP("x/reporter/keeper.Keeper.HasMin"),
+		Assumptions: []string{
+			"staking state as ghost: delegation(a,j)/ndelegations(a) is the sequence IterateDelegatorDelegations visits, staking.validators the validator store; Validator.TokensFromShares = shares*Tokens/DelegatorShares with banker's rounding (cosmos-sdk v0.50.9)",
+			"the minimum passed to HasMin is positive",
+		},
+		NotDecided: []string{
+			"ReporterStake (sum over the reporter's selectors with lock filter), selector cap, one reporter per selector, jail handling, delegation counters maintained by hooks: not yet under contract",
+			"the same token never counts for two reporters within one window (history property)",
 		},
 	})
 }
